@@ -38,6 +38,7 @@ from apischema.serialization import (
     PassThroughOptions,
     SerializationMethod,
     SerializationMethodVisitor,
+    serialization_method_factory,
 )
 from apischema.serialization.serialized_methods import (
     ErrorHandler,
@@ -82,8 +83,33 @@ class PartialSerializationMethodVisitor(SerializationMethodVisitor):
             pass_through_options,
         )
 
+    def _full_method(self, tp: AnyType) -> SerializationMethod:
+        # Any and mappings are JSON scalars: their content is not resolved by GraphQL
+        # afterwards, so it has to be completely serialized
+        return serialization_method_factory(
+            False,
+            self.aliaser,
+            False,
+            self._conversion,
+            self.default_conversion,
+            False,
+            False,
+            False,
+            True,
+            True,
+            self.pass_through_options,
+        )(tp)
+
+    def any(self) -> SerializationMethod:
+        return self._full_method(Any)
+
     def enum(self, cls: Type[Enum]) -> SerializationMethod:
         return IDENTITY_METHOD
+
+    def mapping(
+        self, cls: Type[Mapping], key_type: AnyType, value_type: AnyType
+    ) -> SerializationMethod:
+        return self._full_method(Mapping[key_type, value_type])  # type: ignore
 
     def object(self, tp: AnyType, fields: Sequence[ObjectField]) -> SerializationMethod:
         return IDENTITY_METHOD
